@@ -80,7 +80,7 @@ def run(ck, prog, tier, load):
         nm = e[2].split("::")[-1]
         labs = [(short(c, 2), lab_s(lab)) for c, lab, a in cf.guards(bb)]
         states[nm] = (bb, labs)
-    ck.anchor("C17-b", len(states), 3, "ConnectionState outcomes in the taint probe")
+    ck.anchor("C17-b", len(states), 2, "ConnectionState outcomes in the taint probe")
     if "Live" in states:
         bb = states["Live"][0]
         ok = any(c[0] == "discr" and e_calls(c, r"poll_read$") and lab == "Pending" for c, lab, a in cf.guards(bb))
@@ -164,7 +164,7 @@ def run(ck, prog, tier, load):
         ck.ob("C17-d.response-close-wins", "ClientCodec::decode", ok_close and ok_ka, cdec, bb,
               "when the response announces a connection type other than keep-alive the codec adopts it (the connection is not reused); the peer's keep-alive never upgrades a request that asked for close (close edge takes the response's value: %s, keep-alive edge keeps the request's: %s)" % (ok_close, ok_ka))
     pw = [(bb, s, cdec.rv_expr(s["rv"], 4)) for bb, i, s in cdec.assigns() if any(isinstance(x, str) and x.endswith("ClientCodecInner.payload") for x in s["p"][1:])]
-    ck.anchor("C17-d", len(pw), 3, "writes of ClientCodecInner.payload in ClientCodec::decode")
+    ck.anchor("C17-d", len(pw), 2, "writes of ClientCodecInner.payload in ClientCodec::decode")
     from ..h1 import flag_edge  # noqa
     for bb, s, e in pw:
         head_t = any(c[0] == "call" and rx(r"::contains$").search(c[1] or "") and e_has_const(c, r"::HEAD$") and lab is True for c, lab, a in cdec.guards(bb))
